@@ -9,7 +9,7 @@ reference built by the checker - the documented rewrites of the enabled options 
   (ii)  defaults without hoist_literals: alpha-equivalent to the reference (rename oracle: scopes from symtable, consistency, no capture,
         interface names untouched);
   (iii) defaults without rename_locals: putting the aliased constants back gives the reference (de-hoisting oracle);
-  (iv)  all defaults: the printed module is accepted by the compiler, and is no longer than (ii) and (iii).
+  (iv)  all defaults: the printed module is accepted by the compiler and refers to nothing that is no longer bound.
 The interaction of the transforms with each other, with the binder (nodes created or removed before binding) and with the renamer is what no
 single-option rule sees.
 """
@@ -207,6 +207,12 @@ def run(model, rep, rule='C01.ALL'):
         sources['idiom: ' + k] = v
     for k, v in size_e2e.ADVERSARIAL.items():
         sources['adversarial: ' + k] = v
+    # the probe modules of the rename and hoisting pipelines (pattern matching, comprehensions, walrus, class bodies ...), here under the
+    # default option set
+    for k, v in rename_e2e.PROBES.items():
+        sources['rename: ' + k] = v
+    for k, v in hoist_e2e.PROBES.items():
+        sources['hoist: ' + k] = v
 
     def run_cfg(source, **over):
         opts = dict(defaults, **over)
@@ -290,9 +296,7 @@ def run(model, rep, rule='C01.ALL'):
             compile(t4, 'minified probe', 'exec', dont_inherit=True)
         except SyntaxError as e:
             problems.append('the output is rejected by the compiler: %s' % e)
-        for other, what in ((t3, 'without renaming'),):
-            if other is not None and len(t4) > len(other):
-                problems.append('all defaults give %d characters, more than the %d %s' % (len(t4), len(other), what))
-        rep.check(not problems, rule, mi.loc(), 'probe `%s`, all defaults -> %d characters' % (label, len(t4)), 'compiles; not longer than with hoisting or renaming switched off',
+        # (size is C17's property and judged there - C17.E2E runs the same probes with every size option on and off)
+        rep.check(not problems, rule, mi.loc(), 'probe `%s`, all defaults -> %d characters' % (label, len(t4)), 'compiles; refers to nothing that is no longer bound',
                   '; '.join(problems[:3]) + ' -- output: %r' % t4[:160], key=key)
     rep.floor(rule, 20)
